@@ -34,7 +34,7 @@ ASSUMPTIONS = [
     "inputs are the vendored corpus fonts (no generated fonts: not this technique)",
     "tables that carry free text are compared after XML white-space normalisation of their dumps when their bytes differ, as the property allows",
 ]
-EXPECTED_PROBES = ["edit.cffreals", "damage.kept_raw", "edit.emptyprog", "foreign", "foreign.VDMX", "merge.untouched_checked", "edit.reorder", "input.generated", "expat.split_text_node", "reader.short", "reader.text", "reader.path", "bufsize.1", "dump.splitTables", "dump.splitGlyphs", "newline.crlf", "lossless.tables_checked"]
+EXPECTED_PROBES = ["foreign.post", "edit.cffreals", "damage.kept_raw", "edit.emptyprog", "foreign", "foreign.VDMX", "merge.untouched_checked", "edit.reorder", "input.generated", "expat.split_text_node", "reader.short", "reader.text", "reader.path", "bufsize.1", "dump.splitTables", "dump.splitGlyphs", "newline.crlf", "lossless.tables_checked"]
 
 TIERS = {
     "quick": {"budget_s": 600, "determinism_sample": 10, "n": {"sweep": 1500, "merge": 260}, "minimise_s": 40, "max_minimise": 3},
